@@ -569,7 +569,36 @@ func (g *Gen) contractFor(callee *ssa.Function, cc *ssa.CallCommon) *Contract {
 		key := "(" + types.TypeString(recv, nil) + ")." + cc.Method.Name()
 		return g.w.DB.Funcs[key]
 	}
+	if cc != nil {
+		if key := funcFieldKey(cc.Value); key != "" {
+			return g.w.DB.Funcs[key]
+		}
+	}
 	return nil
+}
+
+// a call through a function-typed struct field (ctx.CanTransfer(...)) may be given a contract under the
+// key "(pkg/path.Struct).Field", the form of a method key
+func funcFieldKey(v ssa.Value) string {
+	var st types.Type
+	var idx int
+	switch x := v.(type) {
+	case *ssa.UnOp:
+		fa, ok := x.X.(*ssa.FieldAddr)
+		if !ok || x.Op != token.MUL {
+			return ""
+		}
+		st, idx = fa.X.Type().Underlying().(*types.Pointer).Elem(), fa.Field
+	case *ssa.Field:
+		st, idx = x.X.Type(), x.Field
+	default:
+		return ""
+	}
+	s, ok := st.Underlying().(*types.Struct)
+	if !ok {
+		return ""
+	}
+	return "(" + types.TypeString(st, nil) + ")." + s.Field(idx).Name()
 }
 
 func (g *Gen) inlineOK(f *ssa.Function, ct *Contract) bool {
@@ -677,6 +706,8 @@ func (g *Gen) callCommon(in *ssa.Call, cc *ssa.CallCommon, guard string) {
 		key = shortFn(funcKey(callee))
 	} else if cc.IsInvoke() {
 		key = "(" + shortFn(types.TypeString(cc.Value.Type(), nil)) + ")." + cc.Method.Name()
+	} else if fk := funcFieldKey(cc.Value); fk != "" {
+		key = shortFn(fk)
 	}
 	var results []string
 	if resT != nil {
@@ -721,10 +752,16 @@ func (g *Gen) callCommon(in *ssa.Call, cc *ssa.CallCommon, guard string) {
 		}
 	} else {
 		sig = cc.Signature()
-		pnames = append(pnames, "self")
-		ptypes = append(ptypes, cc.Value.Type())
+		if cc.IsInvoke() {
+			pnames = append(pnames, "self")
+			ptypes = append(ptypes, cc.Value.Type())
+		}
 		for i := 0; i < sig.Params().Len(); i++ {
-			pnames = append(pnames, sig.Params().At(i).Name())
+			n := sig.Params().At(i).Name()
+			if n == "" || n == "_" {
+				n = fmt.Sprintf("a%d", i) // unnamed parameter of an interface method or function-typed field
+			}
+			pnames = append(pnames, n)
 			ptypes = append(ptypes, sig.Params().At(i).Type())
 		}
 	}
